@@ -524,3 +524,4 @@ fn check_loca(m: &LocaM, rec: &mut Rec) -> CaseResult {
 include!("c15_tt_glyf.rs");
 include!("c15_tt_cmap.rs");
 include!("c15_tt_edges.rs");
+include!("c15_tt_fuzz.rs");
